@@ -45,6 +45,7 @@ impl<K: PartialEq, V> VecMap<K, V> {
     pub fn iter(&self) -> impl Iterator<Item = (&K, &V)> { self.items.iter().map(|(k, v)| (k, v)) }
     pub fn keys(&self) -> impl Iterator<Item = &K> { self.items.iter().map(|(k, _)| k) }
     pub fn values(&self) -> impl Iterator<Item = &V> { self.items.iter().map(|(_, v)| v) }
+    pub fn values_mut(&mut self) -> impl Iterator<Item = &mut V> { self.items.iter_mut().map(|(_, v)| v) }
 }
 impl<K: PartialEq, V> IntoIterator for VecMap<K, V> {
     type Item = (K, V);
